@@ -181,3 +181,17 @@ META["C29"] = dict(
          "message, is a violation. fill / init / fragments are compared for every fragment length.",
     note="Trusted: genair/checker.rs (70 lines) and refarith.rs.",
 )
+META["C22"] = dict(
+    technique="executed-definition monitor: every derived boundary constraint and divisor evaluated at every trace-domain point + order-independence comparison (constraints and proof bytes)",
+    text="For generated assertion sets the monitor knows the asserted cells explicitly; it evaluates the real constraint and "
+         "divisor objects at all n domain points and requires zeros exactly where the definition says, with the right and "
+         "a wrong trace value; coefficient assignment and proof bytes are compared across permutations of the AIR's list.",
+    note="Sampling of assertion sets; inside one set every constraint and point is checked.",
+)
+META["C23"] = dict(
+    technique="executed-definition monitor (divisor zero sets and values, degree formulas, column sufficiency over all accepted contexts in a bound, periodic polynomials at every step)",
+    text="Divisors are compared with the product definition in reference arithmetic; degree and blowup formulas with the "
+         "definition of the product degree; the composition column count with the arithmetic need (degree + 1 coefficients) "
+         "for every exemption count a context accepts; periodic polynomials are evaluated at every step.",
+    note="Exhaustive inside the stated bounds for (n, e) and degree declarations; periodic columns sampled.",
+)
